@@ -453,8 +453,10 @@ Proof.
   induction labs as [|l labs IH]; intros acc nm r fuel Hr Hf.
   - destruct fuel; [cbn in Hf; lia|]. cbn [label_lines flat_map app parse_labels map].
     rewrite app_nil_r. destruct r as [|[ | | | | | | | | | | | | ] r']; cbn in Hr; try reflexivity. contradiction.
-  - destruct fuel; [cbn in Hf; lia|]. cbn [label_lines flat_map app parse_labels].
-    fold (label_lines labs). rewrite IH by (try assumption; cbn in Hf; lia).
+  - destruct fuel; [cbn in Hf; lia|]. cbn [label_lines flat_map app parse_labels skip_nl].
+    fold (label_lines labs).
+    assert (Hs : skip_nl (label_lines labs ++ TName nm :: r) = label_lines labs ++ TName nm :: r) by (destruct labs; reflexivity).
+    rewrite Hs. rewrite IH by (try assumption; cbn in Hf; lia).
     cbn [rev map]. now rewrite <- app_assoc.
 Qed.
 
@@ -866,7 +868,7 @@ Lemma parse_labels_optname n kw ts2 F :
   parse_labels F (tk_optname n ++ TName kw :: ts2) [] = Some (optlist n, kw, ts2).
 Proof.
   intros Hf HF. destruct F as [|[|F]]; try lia.
-  destruct n as [x|]; cbn [tk_optname app parse_labels optlist rev];
+  destruct n as [x|]; cbn [tk_optname app parse_labels optlist rev skip_nl];
     destruct ts2 as [|[ | | | | | | | | | | | | ] r]; cbn in Hf; try contradiction; reflexivity.
 Qed.
 
@@ -1202,7 +1204,7 @@ Qed.
 Lemma parse_labels_named n kw r F : follow_not_col r -> (3 <= F)%nat ->
   parse_labels F (TName n :: TCol :: TName kw :: r) [] = Some ([n], kw, r).
 Proof.
-  intros Hr HF. destruct F as [|[|[|F]]]; try lia. cbn [parse_labels rev app].
+  intros Hr HF. destruct F as [|[|[|F]]]; try lia. cbn [parse_labels rev app skip_nl].
   destruct r as [|[ | | | | | | | | | | | | ] r']; cbn in Hr; try contradiction; reflexivity.
 Qed.
 
